@@ -276,15 +276,17 @@ def c10_3(rep, ix):
 # -------------------------------------------------------------------------------- C10.4 line and 1-based column
 def c10_4(rep, ix):
     R = "C10.4"
-    rep.rule(R, "every message raised by syntaxError starts with the unmodified line and column + 1 of the offending token", floor=8)
+    rep.rule(R, "every message raised by syntaxError starts with the unmodified line and column + 1 of the offending token", floor=3)
     f = ix.func(SYNERR)
     fn = f.node
     for p in ("line", "column"):
         rep.check(not assigns(fn, p), R, ix.site(f), "parameter `%s` is never rebound in syntaxError" % p, key="rebound " + p)
     from ..py import norm
+    nraise = 0
     for n in walk_shallow(fn):
         if not isinstance(n, ast.Raise) or not isinstance(n.exc, ast.Call) or not n.exc.args:
             continue
+        nraise += 1
         msg = n.exc.args[0]
         key = " ".join(u(n).split())[:90]
         parts = message_parts(fn, msg, n)
@@ -297,6 +299,8 @@ def c10_4(rep, ix):
             and len(parts) > 4 and parts[4][0] == "lit" and parts[4][1].startswith(")")
         shown = "".join(p[1] if p[0] == "lit" else "{%s}" % u(p[1]) for p in parts)[:70]
         rep.check(ok, R, ix.site(f, n), "`%s`: the message starts 'Blackbird SyntaxError (line {line}:{column + 1})'" % key, "message `%s`" % shown, key="msg|" + key)
+    if nraise == 0:
+        raise Inconclusive("syntaxError: no raise statement with a message found")
 
 
 def message_parts(fn, msg, at):
@@ -368,8 +372,15 @@ def c10_5(rep, ix, M):
     if not dd:
         rep.ok(R, ix.site(f), "no __dict__ / vars() lookups in syntaxError (positive control: runtime declares slots %s)" % (slots.get("RuleContext"),))
     rep.check("parentCtx" in (slots.get("RuleContext") or ()), R, "antlr4.RuleContext", "runtime layout as assumed: parentCtx is a slot of RuleContext", key="slots")
-    # accessor existence
+    # accessor existence, presence and definite assignment: in syntaxError and in every helper of the error module it could not absorb
     cc = ContextClasses(M.src["py_parser"])
+    todo = [f] + [g for q, g in sorted(ix.funcs.items()) if g.mod == f.mod and g.qual != f.qual and q == g.qual and g.qual not in ix.known and not g.name.startswith("__")]
+    for g in todo:
+        accessor_checks(rep, R, ix, g, M, cc)
+
+
+def accessor_checks(rep, R, ix, f, M, cc):
+    fn = f.node
     ty = Typer(cc, fn).run()
     n_acc = 0
     for node, recv, attr, is_call in ty.accesses:
@@ -408,8 +419,37 @@ def nullness(rep, R, ix, f, M, cc, ty):
     F = FirstK(G, 2)
     fn = f.node
     acc_of = {id(n): (recv, attr, is_call) for n, recv, attr, is_call in ty.accesses}
-    for node, recv, attr, is_call in ty.accesses:
+    for node, recv, attr, is_call in ty.accesses + or_derefs(fn):
         base = node.func.value if is_call else node.value
+        if isinstance(base, ast.BoolOp) and isinstance(base.op, ast.Or):
+            # (ctx.a() or ctx.b()).x : some alternative must be attached at every error position
+            alts = [b_ for b_ in base.values if isinstance(b_, ast.Call) and isinstance(b_.func, ast.Attribute) and id(b_) in acc_of and not b_.args]
+            if len(alts) != len(base.values):
+                continue
+            cts = set()
+            for b_ in alts:
+                cts |= {x[4:] for x in acc_of[id(b_)][0] if x.startswith("ctx:")}
+            rvs = {u(b_.func.value) for b_ in alts}
+            if len(cts) != 1 or rvs != {"ctx"}:
+                continue
+            X = cts.pop()
+            body, where = exh.body_of(G, X)
+            if body is None:
+                continue
+            rule = where.split("#")[0]
+            glen = F.guaranteed_prefix(rule)
+            names = [acc_of[id(b_)][1] for b_ in alts]
+            P = [p for p in positions(G, body) if p[0] in ("token", "decision") and p[2] >= glen]
+            missing = [p for p in P if not any(n_ in p[3] for n_ in names)]
+            txt = " or ".join("ctx.%s()" % n_ for n_ in names)
+            if missing:
+                p0 = missing[0]
+                rep.bad(R, ix.site(f, node), "one of `%s` is attached whenever the error is reported in a %s" % (txt, X),
+                        "an error reported at the %s %s of rule %s (token offset %d) finds none of them attached: AttributeError on None instead of BlackbirdSyntaxError" % (p0[0], p0[1], rule, p0[2]),
+                        key="null|%s.%s|or" % (X, "+".join(names)))
+            else:
+                rep.ok(R, ix.site(f, node), "one of `%s` is attached at all %d error positions of rule %s" % (txt, len(P), rule))
+            continue
         if not (isinstance(base, ast.Call) and isinstance(base.func, ast.Attribute) and id(base) in acc_of and not base.args):
             continue
         brecv, battr, _ = acc_of[id(base)]
@@ -453,6 +493,15 @@ def nullness(rep, R, ix, f, M, cc, ty):
             prof = exh.profiles(body)
             ok = all(battr in p for p in prof)
             rep.check(ok, R, site, "`%s`: %s is present in every complete %s node" % (txt, battr, where), key="null|%s.%s|child" % (X, battr))
+
+
+def or_derefs(fn):
+    """(node, set(), attr, is_call) for attribute accesses / method calls whose receiver is `a or b`"""
+    out = []
+    for n in walk_shallow(fn):
+        if isinstance(n, ast.Call) and isinstance(n.func, ast.Attribute) and isinstance(n.func.value, ast.BoolOp):
+            out.append((n, set(), n.func.attr, True))
+    return out
 
 
 def possibly_unbound(fn):
